@@ -88,6 +88,19 @@ CLAIMS = {
    "(entries before the line handled normally, exactly one error stating the cause and no probe, then stop or continue as if absent; neighbours unchanged; errors.Is on the cause). "
    "E2: full tcp/udp/icmp commands - frames per port and error records on stderr obey the same model, destination MAC per frame.",
    "trusts verifkit/gram/lines.go as the definition of 'cannot become a probe' and of acceptable causes; ill-typed port in addresses mode not generated", "C13"),
+ "C11": _c("E2-cmdwire",
+   "property-based testing: round trip ARP frame -> real scan method -> JSON logger -> cache loader -> destination MAC of later probes; generated cache files and request streams with concurrent readers under the race detector",
+   "Exploration. (a) generated ARP frames (all-zero/broadcast MACs, OUIs whose vendor strings need escaping, repeated addresses) through the real arp.ScanMethod and JSON logger; the output must be accepted by arp.FillCache and map each address to the MAC of its last line (4- and 16-byte lookups). "
+   "(b) generated cache files (duplicates, ::ffff: spellings, upper-case MACs, extra fields) and request streams resolved by 1..32 concurrent readers: own entry, else gateway, else error - never another host's MAC. "
+   "(c) pipeline of two full commands on the virtual wire: sx arp --json answered by generated hosts, its stdout used as -a file / stdin of tcp/udp/icmp; Ethernet destination of every probe judged per frame.",
+   "trusts encoding/json as the decoder of printed lines; schedules sampled (race detector, GOMAXPROCS varied)", "C11"),
+ "C15": _c("E2-cmdwire",
+   "property-based testing: call algebra with a counting limiter; one-sided timing bounds on frame/probe start times of full commands with generated --rate values",
+   "Exploration. (1) operation sequences on the rate-limited read/writer and concurrent probes through the rate-limited scanner with a counting limiter: one Take immediately before every write/scan, none for reads. "
+   "(2) full packet-scan commands with generated --rate N[/W]: for all i<j on a socket t_j - t_i >= (j-i-12)W/N (lower bound only, monotonic clock, derived from the limiter's recurrence). "
+   "(3) application scans: same bound on probe start times (+ worker count for observation skew), and a stall scenario (whole worker pool held, then released) where the m-th probe after release may not start before release + (m-12)W/N whatever the worker count. "
+   "(4) with 1/300ms, replies arriving after probe 1 are all read before probe 3 is written.",
+   "lower bounds only - a slow machine cannot raise an alarm; the limiter library's slack of 10 is taken from its source (v0.2.0)", "C15"),
 }
 
 # properties not (yet) claimed
